@@ -187,6 +187,18 @@ func units(tier string) []mc.Unit {
 	for _, c := range synthCounts() {
 		us = append(us, mc.Unit{Name: fmt.Sprintf("synth:count=%d", c), Params: params{Family: "synth", C: c}})
 	}
+	gateLen := 2
+	if tier == "thorough" {
+		gateLen = 3
+	}
+	for n := 1; n <= gateLen; n++ {
+		for _, w := range words([]string{"b1", "b2", "s1"}, n) {
+			us = append(us, mc.Unit{Name: "gate:bridge:" + strings.Join(w, ","), Params: params{Family: "gate", Store: sk.Bridge, Prefix: w}})
+		}
+		for _, w := range words([]string{"ii", "v1"}, n) {
+			us = append(us, mc.Unit{Name: "gate:l1info:" + strings.Join(w, ","), Params: params{Family: "gate", Store: sk.L1Info, Prefix: w}})
+		}
+	}
 	return us
 }
 
@@ -416,6 +428,8 @@ func run(c *mc.Ctx, u mc.Unit) {
 		runL1(c, p, dir)
 	case "reorg":
 		runReorg(c, p, dir)
+	case "gate":
+		runGate(c, p, dir)
 	case "synth":
 		runSynth(c, p, dir)
 	}
@@ -610,6 +624,88 @@ func runReorg(c *mc.Ctx, p params, dir string) {
 	c.Obs("reorg %s history=%v choices=%v final=%s", p.Store, p.Prefix, c.Choices, histStr(chain))
 }
 
+// ---- gate: one syncer transaction lands inside a proof query ----------------------------------------------
+//
+// A proof is read row by row (32 node rows) while the syncer goes on committing blocks and reorgs. For every history, every
+// recorded root x position, every syncer transaction (a reorg from any block, the next block) and every statement of the
+// query before which that transaction can land (storekit's statement gate): a proof that is SERVED must still fold to the
+// root it was asked for. An error answer is accepted when the transaction landed (the root may be gone).
+func runGate(c *mc.Ctx, p params, dir string) {
+	node := sk.Open(p.Store, dir)
+	defer node.Close()
+	chain := sk.NewChain(p.Store)
+	feed := func(kind string, salt int) bool {
+		if p.Store == sk.L1Info {
+			return feedL1(c, node, chain, kind, salt)
+		}
+		return feedBridges(c, node, chain, map[bool]int{false: 0, true: 2}[kind[0] == 's'], map[string]int{"b1": 1, "b2": 2, "s1": 1}[kind], salt)
+	}
+	for _, k := range p.Prefix {
+		if !feed(k, 0) {
+			return
+		}
+	}
+	t := exitTree(node)
+	if p.Store == sk.L1Info {
+		t = infoTree(node)
+	}
+	leaves := chain.Leaves()
+	if len(leaves) == 0 {
+		return
+	}
+	j := uint32(c.Choose(len(leaves), "root-of-index"))
+	i := uint32(c.Choose(int(j)+1, "position"))
+	rj, err := t.rootAt(j)
+	if err != nil {
+		c.Failf(t.name+"/no-root-recorded-for-an-appended-leaf", "history %v: no root for index %d: %v", p.Prefix, j, err)
+		return
+	}
+	tip := chain.Tip()
+	wi := c.Choose(int(tip)+1, "syncer-transaction")
+	wname := fmt.Sprintf("Reorg(%d)", wi+1)
+	writer := func() {
+		if err := node.Reorg(uint64(wi + 1)); err != nil {
+			panic(fmt.Sprintf("c08 gate: %s: %v", wname, err))
+		}
+	}
+	if wi == int(tip) {
+		wname = "ProcessBlock(next)"
+		writer = func() { feed(p.Prefix[0], 1) }
+	}
+	var pr [ref.Height]ref.Hash
+	var perr error
+	positions, _, _ := node.ReadWithWriterAt(0, nil, func() { pr, perr = t.proof(i, rj) })
+	if perr != nil || positions == 0 {
+		c.Failf(t.name+"/"+t.proofCall+"/error", "history %v: %s(%d, root of index %d) failed on the quiet store: %v (%d statements seen)", p.Prefix, t.proofCall, i, j, perr, positions)
+		return
+	}
+	at := 1 + c.Choose(positions, "statement-before-which-the-transaction-lands")
+	_, landed, closed := node.ReadWithWriterAt(at, writer, func() { pr, perr = t.proof(i, rj) })
+	when := fmt.Sprintf("history %v, %s(%d, root recorded for index %d), %s lands before statement %d of %d", p.Prefix, t.proofCall, i, j, wname, at, positions)
+	c.AddEvals(1)
+	c.NonTrivial()
+	switch {
+	case closed:
+		c.Witness("gate_positions_closed_by_the_readers_transaction")
+	case landed:
+		c.Witness("gate_transactions_landed_inside_a_proof_query")
+	default:
+		c.Witness("gate_positions_not_reached")
+	}
+	if perr != nil {
+		if !landed {
+			c.Failf(t.name+"/"+t.proofCall+"/error", "%s: failed although no transaction landed: %v", when, perr)
+		}
+		c.Obs("%s -> error %v", when, perr)
+		return
+	}
+	if got := ref.Verify(leaves[i], pr, i); got != rj {
+		c.Failf(t.name+"/"+t.proofCall+"/proof-does-not-verify/transaction-landed-inside-the-query", "%s: the served proof folds with leaf %s to %s, not to the root %s it was asked for",
+			when, leaves[i].Hex(), got.Hex(), rj.Hex())
+	}
+	c.Obs("%s -> served, verifies", when)
+}
+
 // ---- synth: high-index pre-states ---------------------------------------------------------------------
 
 const maxCount = 1<<32 - 1 // DepositContractBase._MAX_DEPOSIT_COUNT
@@ -712,8 +808,8 @@ func main() {
 		Batch:              func(string) int { return 8 },
 		MaxEvalsPerProcess: 60000, // evaluations count proofs here; bounds store constructions per process (descriptor leak)
 		Run:                run,
-		Setup:              func(string) { kit.Quiet() },
-		Rule: "four unit families. exit: unit = (n, composition into blocks, leaf shape, empty-block pattern), choice: one restart point among all block boundaries (for the plain pattern). " +
+		Setup:              func(string) { kit.Quiet(); sk.InstallStatementGate() },
+		Rule: "five unit families. gate: unit = (store, history of 1..2 (thorough 3) blocks), choices: recorded root, position, the syncer transaction (reorg from any block / next block) and the statement of the proof query before which it lands (all).  exit: unit = (n, composition into blocks, leaf shape, empty-block pattern), choice: one restart point among all block boundaries (for the plain pattern). " +
 			"l1: unit = first blocks of an L1 history over the alphabet {i, ii, v1, v2, v5, vH, mix} (quick: {ii, v1, v2, vH, mix}), choices: the remaining blocks, restart in the middle. " +
 			"reorg: unit = (store, 3-block history), choices: reorg point, restart, continuation length and kinds, new fork with the same or different content. " +
 			"synth: unit = pre-state deposit count, choices: 1..3 appended deposits (quick: 3), composition, restarts. All choice trees explored completely. " +
